@@ -112,6 +112,9 @@ func printHarnessResult(hr *HarnessResult, verbose bool) {
 	for k, n := range hr.Unwinds {
 		fmt.Fprintf(os.Stderr, "   BOUND x%d: %s\n", n, k)
 	}
+	for _, u := range hr.UnknownMsgs {
+		fmt.Fprintf(os.Stderr, "   UNKNOWN: %s\n", u)
+	}
 	for _, e := range hr.EngineErrs {
 		fmt.Fprintf(os.Stderr, "   ENGINE: %s\n", e)
 	}
